@@ -68,6 +68,8 @@ W(T) == CASE Base(T) = "int8" -> 8 [] Base(T) = "int16" -> 16 [] Base(T) = "int3
 \* precision (significand bits) of a floating-point type; MaxExp: largest e with 2^e finite
 P(T) == IF Base(T) = "float32" THEN 24 ELSE 53
 MaxExp(T) == IF Base(T) = "float32" THEN 127 ELSE 1023
+\* smallest positive (subnormal) value of a floating-point type: 2^-MinExp
+MinExp(T) == IF Base(T) = "float32" THEN 149 ELSE 1074
 
 \* the scalar type of a given kind over a base type ("" if there is none)
 TypeOver(kind, base) ==
@@ -148,6 +150,7 @@ VInt(b)     == [k |-> "int",  b |-> b,  n |-> 0, d |-> 1, t |-> ""]     \* exact
 VRat(n, d)  == [k |-> "rat",  b |-> Z8, n |-> n, d |-> d, t |-> ""]     \* n/d, d = 2^j >= 2, n odd, |n| < 2^30
 VTok(t)     == [k |-> "tok",  b |-> Z8, n |-> 0, d |-> 1, t |-> t]      \* "nzero" "pinf" "ninf" "nan"
 VHuge(s, e) == [k |-> "huge", b |-> Z8, n |-> s, d |-> e, t |-> ""]     \* s * 2^e, s = +-1, e >= 63 (outside int64)
+VTiny(s, e) == [k |-> "tiny", b |-> Z8, n |-> s, d |-> e, t |-> ""]     \* s * 2^-e, s = +-1, e >= 31 (subnormal / near it)
 IDef        == [k |-> "idef", b |-> Z8, n |-> 0, d |-> 1, t |-> ""]     \* implementation-defined (Go spec)
 Opq         == [k |-> "opq",  b |-> Z8, n |-> 0, d |-> 1, t |-> ""]     \* a float the value domain cannot name (traces only)
 VI(i)       == VInt(FromInt(i))
@@ -157,11 +160,12 @@ NZero == VTok("nzero")  PInf == VTok("pinf")  NInf_ == VTok("ninf")  NaN == VTok
 IsNaN(v)   == v.k = "tok" /\ v.t = "nan"
 IsInfV(v)  == v.k = "tok" /\ v.t \in {"pinf", "ninf"}
 IsZeroV(v) == (v.k = "int" /\ v.b = Z8) \/ (v.k = "tok" /\ v.t = "nzero")
-IsKnown(v) == v.k \in {"int", "rat", "tok", "huge"}
+IsKnown(v) == v.k \in {"int", "rat", "tok", "huge", "tiny"}
 \* sign of a value: -1, 0, 1 (NaN has none)
 SignV(v) == CASE v.k = "int"  -> IF v.b = Z8 THEN 0 ELSE IF IsNegB(v.b) THEN -1 ELSE 1
               [] v.k = "rat"  -> IF v.n < 0 THEN -1 ELSE 1
               [] v.k = "huge" -> v.n
+              [] v.k = "tiny" -> v.n
               [] v.k = "tok"  -> IF v.t = "pinf" THEN 1 ELSE IF v.t = "ninf" THEN -1 ELSE 0
 \* sign bit (distinguishes -0)
 NegBit(v) == IF v.k = "tok" /\ v.t = "nzero" THEN TRUE ELSE SignV(v) < 0
@@ -173,6 +177,7 @@ NegV(v) == CASE v.k = "int"  -> IF v.b = Z8 THEN NZero
                                 ELSE IF v.b = MinOf(64) THEN VHuge(1, 63) ELSE VInt(BNeg(v.b))
              [] v.k = "rat"  -> VRat(-v.n, v.d)
              [] v.k = "huge" -> IF v.n = 1 /\ v.d = 63 THEN VInt(MinOf(64)) ELSE VHuge(-v.n, v.d)
+             [] v.k = "tiny" -> VTiny(-v.n, v.d)
              [] v.k = "tok"  -> CASE v.t = "nzero" -> VZero [] v.t = "pinf" -> NInf_
                                   [] v.t = "ninf" -> PInf [] v.t = "nan" -> NaN
              [] OTHER -> v
@@ -188,6 +193,9 @@ LtV(a, b) ==
            MagLt(x, y) ==      \* |x| < |y|
              IF IsInfV(x) THEN FALSE
              ELSE IF IsInfV(y) THEN TRUE
+             ELSE IF x.k = "tiny" /\ y.k = "tiny" THEN x.d > y.d
+             ELSE IF x.k = "tiny" THEN TRUE       \* below every other non-zero magnitude of the domain
+             ELSE IF y.k = "tiny" THEN FALSE
              ELSE IF x.k = "huge" /\ y.k = "huge" THEN x.d < y.d
              ELSE IF x.k = "huge" THEN FALSE
              ELSE IF y.k = "huge" THEN TRUE       \* |int64| <= 2^63 <= |huge| and -2^63 is never written as huge
@@ -230,6 +238,8 @@ ToFloat(v, T2) ==
   CASE v.k = "int"  -> IntToFloat(v.b, P(T2))
     [] v.k = "rat"  -> RatToFloat(v.n, v.d, P(T2))
     [] v.k = "huge" -> IF v.d > MaxExp(T2) THEN (IF v.n > 0 THEN PInf ELSE NInf_) ELSE v
+    \* a power of two below the smallest subnormal is at most half of it: it rounds to a (signed) zero
+    [] v.k = "tiny" -> IF v.d > MinExp(T2) THEN (IF v.n > 0 THEN VZero ELSE NZero) ELSE v
     [] OTHER        -> v                                   \* tokens, idef, opq
 
 \* Go: "When converting a floating-point number to an integer, the fraction is discarded
@@ -241,6 +251,7 @@ ToIntType(v, w) ==
                        IN IF Fits(w, FromInt(q)) THEN VI(q) ELSE IDef
     [] v.k = "tok"  -> IF v.t = "nzero" THEN VZero ELSE IDef
     [] v.k = "huge" -> IDef
+    [] v.k = "tiny" -> VZero
     [] OTHER        -> v
 
 (* ------------------------------------------------------ Embed and Convert *)
